@@ -147,3 +147,54 @@ func VerifC06_NatsDuplicateContext() {
 	verifAssert(tr.Close() == nil, "close")
 	verifReach("end")
 }
+
+func init() {
+	verifHarnesses["VerifC06_ReopenedStream"] = VerifC06_ReopenedStream
+}
+
+// "regardless of what was received before it": the connection is lost INSIDE an inbound frame (after
+// any number of bytes of the size prefix or of the body), the transport is reopened, and a fresh
+// request is made on the new connection: its response - the first bytes of the new stream - must be
+// delivered, i.e. nothing of the interrupted frame may be carried over into the new connection.
+func VerifC06_ReopenedStream() {
+	pipe := newVerifPipe()
+	ft := NewAdapterTransport(pipe)
+	verifAssert(ft.Open() == nil, "open")
+
+	c1 := NewFContext("a")
+	c1.SetTimeout(0)
+	done1 := make(chan verifResult, 1)
+	if verifChoice(2) == 1 {
+		// a complete exchange first
+		go verifRequest(ft, c1, done1)
+		<-pipe.sent
+		pipe.feed(verifResponseFrame(verifOpID(c1), []byte{1}))
+		r := <-done1
+		verifAssert(r.err == nil && r.opid == verifOpID(c1), "the first exchange completes")
+		verifReach("exchange-before-loss")
+	}
+	// a frame for nobody, cut after `cut` bytes (inside the size prefix or inside the body), then the peer is gone
+	frame := verifResponseFrame("99999", []byte{2, 2, 2})
+	cut := 1 + verifChoice(len(frame)-1)
+	if cut > 4 {
+		verifReach("cut-inside-body")
+	}
+	pipe.feed(frame[:cut])
+	pipe.hangUp(nil)
+	closed := <-ft.Closed()
+	_ = closed
+	verifAssert(!ft.IsOpen(), "the transport is closed after the stream ended inside a frame")
+
+	verifAssert(ft.Open() == nil, "the transport reopens")
+	c2 := NewFContext("b")
+	c2.SetTimeout(0) // no deadline: an undelivered response shows as a deadlock
+	done2 := make(chan verifResult, 1)
+	go verifRequest(ft, c2, done2)
+	<-pipe.sent
+	pipe.feed(verifResponseFrame(verifOpID(c2), []byte{3}))
+	r2 := <-done2
+	verifAssert(r2.err == nil, "the request on the new connection completes")
+	verifAssert(r2.valid && r2.opid == verifOpID(c2) && len(r2.data) == 1 && r2.data[0] == 3, "with its own response, read from the first byte of the new stream")
+	verifAssert(ft.Close() == nil, "close")
+	verifReach("end")
+}
